@@ -110,3 +110,46 @@ Theorem C01_ratio_correct :
         Qabs ((n # Z.to_pos d) - inject_Z m * pow2 e) <= Qabs ((n # Z.to_pos d) - y))).
 Proof. exact f_of_ratio_correct. Qed.
 Print Assumptions C01_ratio_correct.
+
+(* decimal text: the reader feeds the rounding the exact decimal value, shortcuts for huge and tiny exponents included *)
+From Coq Require Import QArith Qabs.
+From Jawk Require Import Base F64 F64Proofs FloatText.
+
+(* side condition: the exponent has at most 6 significant digits (longer ones are clamped to 100000, as Rust clamps at 65536) *)
+Theorem C01_dec2flt_correct :
+  forall (txt : list N) (d : dec),
+    dec_split txt = Some d ->
+    dec_valid d = true ->
+    dec_unclamped d ->
+    let m := Z.of_N (N_of_digits (d_int d ++ d_frac d)) in
+    let adj := (dec_exp_val d - Z.of_nat (length (d_frac d)))%Z in
+    dec2flt txt =
+    Some
+      (if (m =? 0)%Z
+       then with_sign (d_neg d) 0
+       else f_of_ratio (d_neg d) (m * 10 ^ Z.max adj 0) (10 ^ Z.max (- adj) 0)).
+Proof. exact dec2flt_correct. Qed.
+Print Assumptions C01_dec2flt_correct.
+
+Theorem C01_dec2flt_nearest :
+  forall (txt : list N) (d : dec),
+    dec_split txt = Some d ->
+    dec_valid d = true ->
+    dec_unclamped d ->
+    let m := Z.of_N (N_of_digits (d_int d ++ d_frac d)) in
+    let adj := (dec_exp_val d - Z.of_nat (length (d_frac d)))%Z in
+    let n := (m * 10 ^ Z.max adj 0)%Z in
+    let dn := (10 ^ Z.max (- adj) 0)%Z in
+    (0 < m)%Z ->
+    exists bits : N,
+      dec2flt txt = Some bits /\
+      (((2 ^ 1024 - 2 ^ 970) * dn <= n)%Z /\ f_decode bits = FInf (d_neg d) \/
+       (n < (2 ^ 1024 - 2 ^ 970) * dn)%Z /\
+       (exists fm fe : Z,
+          f_decode bits = FFin (d_neg d) fm fe /\
+          (forall (b : Z) (y : Q),
+           (0 <= b < inf_bits)%Z ->
+           mag_value b = Some y ->
+           Qabs ((n # Z.to_pos dn) - inject_Z fm * pow2 fe) <= Qabs ((n # Z.to_pos dn) - y)))).
+Proof. exact dec2flt_nearest. Qed.
+Print Assumptions C01_dec2flt_nearest.
